@@ -110,13 +110,15 @@ def check_generated(run, ad, style, ext='.edf'):
         return [(PID + '.malformed', type(e).__name__, 'the returned netlist cannot be walked: %r' % e)]
     exp.pop('name'); got.pop('name')          # the property speaks of identifier + original name of renamed *objects*; kept under 'id'
     fails += R.failures_from_diff(PID, R.diff(exp, got), prefix=prefix, exp=exp, got=got)
-    if prefix and fails:
-        fails = [(a, b, c + '  [the text has after its (design ..): %s]' % ', '.join(plan.after_design[:4])) for a, b, c in fails]
     try:
         fails += check_comments(n, ad, plan, prefix)
     except Exception as e:
         fails.append((PID + '.malformed', type(e).__name__, 'the data of the returned netlist cannot be walked: %r' % e))
     fails += R.wellformed(n, PID)
+    if prefix and fails:
+        # one key for the whole case (as b_c18.tag does for its known triggers): what differs is in the detail
+        fails = [(PID + '.after-design', 'not-read', '%s [%s] %s  [the text has after its (design ..): %s]' % (a, b, c, ', '.join(plan.after_design[:4])))
+                 for a, b, c in fails if a != 'HARNESS'] + [f for f in fails if f[0] == 'HARNESS']
     return fails
 
 
@@ -152,8 +154,13 @@ def main():
                      lambda: check_generated(run, ad, style), {'kind': 'edif-read', 'seed': seed, 'ad': ad, 'style': style})
     if cfg.get('corners'):
         for name, ad in R.corner_ads('edif'):
-            for v in range(4):
-                style = E.make_style('corner', v)
+            styles = [E.make_style('corner', v) for v in range(4)]
+            # fixed corner styles: a comment of zero to three strings at every place a comment may stand (and every optional
+            # construct more often than not), once pretty-printed and once dense
+            for v, layout in enumerate(['pretty', 'dense']):
+                styles.append(dict(E.make_style('corner-comments', v), comments=1.0, comment_strings='varied', comment_places='all', status='varied',
+                                   optional=0.6, nodir=0.3, design_pos='last', keywordmap_comment=False, layout=layout))
+            for style in styles:
                 run.case(R.jhash('corner', name, style), True, None, lambda: check_generated(run, ad, style),
                          {'kind': 'edif-read', 'corner': name, 'ad': ad, 'style': style})
     for z in cfg.get('files', []):
